@@ -1048,6 +1048,12 @@ impl<'a, 'b> GeneratorState<'a> {
                                     .compiler_state
                                     .syntax_error("Break statement outside loop", pos))
                             }
+                            // A switch outside any loop has no continue label
+                            Some((cl, _, _)) if cl.is_empty() => {
+                                return Err(self
+                                    .compiler_state
+                                    .syntax_error("Continue statement outside loop", pos))
+                            }
                             Some((cl, _, _)) => cl.clone(),
                         }
                     };
